@@ -210,8 +210,16 @@ def call(cb: Any, e: ast.Call, s: St, quiet: bool) -> tuple[Any, St]:
         x = args[0] if args else Top('')
         pt = e.args[1] if len(e.args) > 1 else kw(e, 'pad')
         pads = None
+
+        def padtext(p_: ast.expr) -> str:
+            # a local that holds one entry of the module's padding pair is that entry
+            if isinstance(p_, ast.Name):
+                v_, _s = cb.ev(p_, s, True)
+                if isinstance(v_, ObjV) and v_.tag.split('[')[0] in ('padding', 'kernel_size', 'stride', 'dilation'):
+                    return v_.tag
+            return norm(p_)
         if isinstance(pt, (ast.Tuple, ast.List)):
-            pads = [norm(p) for p in pt.elts]
+            pads = [padtext(p) for p in pt.elts]
         elif isinstance(pt, ast.BinOp) and isinstance(pt.op, ast.Mult):
             # (a, b) * 2 — a repeated literal sequence
             seq, cnt = (pt.left, pt.right) if isinstance(pt.left, (ast.Tuple, ast.List)) else (pt.right, pt.left)
@@ -238,6 +246,9 @@ def call(cb: Any, e: ast.Call, s: St, quiet: bool) -> tuple[Any, St]:
             for i in DIST_SINKS[prim]:
                 if i < len(args) and isinstance(args[i], TV) and args[i].alias:
                     it.events.append(('inplace', f, e, (f'output argument of {fn}', args[i])))
+                if i < len(args) and isinstance(args[i], ListV) and args[i].shared:
+                    it.err(f, e, f'{norm(e)[:70]}: every slot of the output list is the same tensor object (built by `[t] * n`): the collective writes all '
+                                 'results into one buffer and the list afterwards holds n references to the last one written')
                 if i < len(args) and isinstance(args[i], ListV):
                     for x in args[i].items:
                         if isinstance(x, TV) and x.alias:
